@@ -15,6 +15,13 @@ class QuaHitList(HitList[QuaHit], QuaNoteList[QuaHit]):
     @staticmethod
     def from_yaml(dicts: List[Dict[str, Any]]) -> QuaHitList:
         df = pd.DataFrame(dicts)
+        # Omitted keys take the format's defaults before anything is computed from them
+        df = df.reindex(
+            df.columns.union(["StartTime", "Lane", "KeySounds"], sort=False), axis=1
+        )
+        df["StartTime"] = df["StartTime"].fillna(0)
+        df["Lane"] = df["Lane"].fillna(1)
+        df["KeySounds"] = [k if isinstance(k, list) else [] for k in df["KeySounds"]]
         df = df.rename(
             dict(StartTime="offset", Lane="column", KeySounds="keysounds"), axis=1
         )
